@@ -259,3 +259,26 @@ fn c18_viot_offsets_beyond_16_bits_refused() {
         panic!("VIOT of {} bytes returned: node count field {}, last endpoint's output node offset {} (true offset {})", b.len(), n, out, 48 + 4096 * 16);
     }
 }
+
+// ---- PPTT
+#[test]
+fn c01_pptt_empty_table_checksum() {
+    use acpi_tables::pptt::*;
+    let t = PPTT::new(*b"FOOBAR", *b"DECAFCOF", 1);
+    check_table("PPTT(new)", &ser(&t));
+}
+#[test]
+fn c18_pptt_oversize_processor_node_refused() {
+    use acpi_tables::pptt::*;
+    let mut t = PPTT::new(*b"FOOBAR", *b"DECAFCOF", 1);
+    let c = t.add_cache(CacheNodeBuilder::default().size(1).to_node());
+    let mut n = ProcessorNode::new(None, 1);
+    for _ in 0..59 {
+        n = n.add_cache(&c);
+    }
+    // 20 + 4 * 59 = 256 does not fit the one-byte length field
+    let r = refuses(|| ser(&n));
+    if let Err(b) = r {
+        panic!("processor node of {} bytes returned with length field {}", b.len(), b[1]);
+    }
+}
